@@ -42,6 +42,7 @@ class World(object):
 
     def __init__(self, read_case=None):
         _POOL.clear()
+        self.ci = read_case in ("upper", "lower")        # such sections compare names case-insensitively
         if read_case is None:
             self.las = [lasio.LASFile(), lasio.LASFile()]
         else:
@@ -76,6 +77,9 @@ class World(object):
             m = [k for k, v in META.items() if v == meta]
             out.append({"id": self.ident(c), "o": c.original_mnemonic, "s": c.mnemonic,
                         "m": m[0] if m else -1, "a": arr_id(c.data)})
+            if getattr(self, "ci", False):
+                o = c.original_mnemonic
+                out[-1]["of"] = ("UNKNOWN" if o.strip() == "" else o).upper()      # comparison key of the name (Curves!OF)
         return out
 
     def project(self):
